@@ -46,7 +46,7 @@ def _implicit_conversion(obj):
             )
         elif isinstance(obj, sympy.Pow):
             return _PowExpr(
-                _implicit_conversion(obj.base), _implicit_conversion(obj.exp)
+                [_implicit_conversion(obj.base), _implicit_conversion(obj.exp)]
             )
         elif isinstance(obj, sympy.Float):
             return Constant(float(obj))
